@@ -78,13 +78,16 @@ func (r *Eval) run(ctx context.Context) (ret Object, err error) {
 		r.VM.Abort()
 		err = ctx.Err()
 	default:
+		// Clear the abort flag here instead of in the goroutine, otherwise an
+		// Abort call below can be overwritten by the start of the run.
+		r.VM.abort.Store(0)
 		verifPoint(vpEvalBeforeGo, r.VM)
 		go func() {
 			verifPoint(vpEvalGoStart, r.VM)
 			defer verifPoint(vpEvalGoEnd, r.VM)
 			defer close(doneCh)
 			defer verifPoint(vpEvalGoClosing, r.VM)
-			ret, err = r.VM.Run(r.Globals, r.Locals...)
+			ret, err = r.VM.runWith(false, r.Globals, r.Locals...)
 		}()
 
 		verifPoint(vpEvalSelect2, r.VM)
